@@ -231,6 +231,10 @@ def t_to_async_iter(E):
                     return VStub('Queue.put_nowait', lambda E_, a, k: _unsupp('direct put_nowait from the worker'))
                 if name == 'get':
                     return VStub('Queue.get', lambda E_, a, k: aio.mk_awaitable('chan_get'))
+            if isinstance(o, Obj) and o.cls == 'ExecFuture' and name == 'done':
+                # the worker hands the sentinel over and only then finishes: whether the future is already done
+                # when the consumer looks is a race, either answer is possible
+                return VStub('Future.done', lambda E_, a, k: VBool(E.fresh('worker_future_done', z3.BoolSort())))
             return None
         Bn['__getattr_ext__'] = loop_attr
 
@@ -520,7 +524,11 @@ def install_c17(E, st, Qn):
     def attr(E_, o, name, node):
         if isinstance(o, VVal) and o.t.sort() == LoopS:
             if name == 'is_running':
-                return VStub('loop.is_running', lambda E_, a, k: VBool(E.branch(z3.Select(running(), o.t))))
+                def is_running(E_, a, k):
+                    r = E.branch(z3.Select(running(), o.t))
+                    st['last_is_running'] = (o.t, r)
+                    return VBool(r)
+                return VStub('loop.is_running', is_running)
             if name == 'is_closed':
                 return VStub('loop.is_closed', lambda E_, a, k: VBool(E.branch(z3.Select(closed(), o.t))))
             if name == 'run_until_complete':
@@ -563,6 +571,10 @@ def install_c17(E, st, Qn):
                 st['submitted'] = (a[0], list(a[1:]))
                 return Obj('ConcFuture2', dict(fn=a[0], args=list(a[1:])))
             return VStub('Executor.submit', submit)
+        if isinstance(o, Obj) and o.cls == 'ConcFuture2' and name in ('running', 'done'):
+            # the pool thread has picked the function up / has finished it: says nothing about what the function
+            # has got to (the loop is running only once run_forever() has been entered)
+            return VStub('Future.' + name, lambda E_, a, k: VBool(E.fresh('future_' + name, B)))
         if isinstance(o, Obj) and o.cls == 'ConcFuture2' and name == 'result':
             def result(E_, a, k):
                 """Future.result(): blocks until the submitted function has returned"""
@@ -729,9 +741,12 @@ def t_loop_in_thread(E):
             E.w['running'] = E.fresh('running', z3.ArraySort(LoopS, B))
 
         def test():
+            st['last_is_running'] = None
             r = E.is_true(E.eval(stn.test, fr))
             if not r:
-                st['observed_running'] = True
+                # the wait is left: only an is_running() of THE loop answering True counts as having seen it run
+                lr = st.get('last_is_running')
+                st['observed_running'] = bool(lr is not None and z3.eq(lr[0], st['target']) and lr[1] is True)
             return r
         E.cut_loop(stn, fr, inv, havoc, test=test, label='wait-running')
     E.hooks[(Qn, 'loop', 0)] = wait_loop
@@ -742,6 +757,7 @@ def t_loop_in_thread(E):
         install_c17(E, st, Qn)
         E.builtins[('import', 'time:sleep')] = VStub('time.sleep', lambda E_, a, k: NONE)
         target = E.fresh('target_loop', LoopS)
+        st['target'] = target
         E.w['cur_loop'] = z3.Const('no_loop', LoopS)
         E.cover(Qn + '/requires')
         E.canary(Qn + '/canary@entry')
